@@ -468,7 +468,7 @@ theorem pres_submitStep {p : Params} {s : St} {t : Nat} {r : St × Bool} (h : SI
         · simp [hsh] at hr
         · simp [hsh] at hr; subst hr
           rw [setPhase_eq ht]
-          refine ⟨sinv_task_update (y := ⟨.queued, false, kids⟩) h ht rfl rfl rfl rfl rfl rfl rfl (by simp [fPend, Phase.pending]) (by simp [fCanc, Phase.canc]) ?_, rfl, rfl⟩
+          refine ⟨sinv_task_update (y := ⟨.queued, false, kids⟩) h ht rfl rfl rfl rfl rfl rfl rfl (by simp [fPend, Phase.pending, bcast]) (by simp [fCanc, Phase.canc]) ?_, rfl, rfl⟩
           intro m hm R
           exact ⟨m, hm, monUpd_same ⟨.queued, false, kids⟩ R.tasks ht rfl rfl rfl rfl rfl rfl _ R.ctr⟩
       all_goals
@@ -1015,6 +1015,7 @@ theorem pres_clientStep {p : Params} {s : St} {c : Client} {r : St × Client} (h
         simp [openOf, emit, hm, monStep, CPc.inStart, b2n]
       | waitComplete => simp at hr; subst hr; exact fin (pres_refl h) rfl (by simp [CPc.inSd])
       | waitZero => simp at hr; subst hr; exact fin (pres_refl h) rfl (by simp [CPc.inSd])
+      | waitAbove n => simp at hr; subst hr; exact fin (pres_refl h) rfl (by simp [CPc.inSd])
   case sub t =>
     simp only [clientStep, List.mem_map] at hr
     obtain ⟨q, hq, rfl⟩ := hr
@@ -1059,12 +1060,12 @@ theorem pres_clientStep {p : Params} {s : St} {c : Client} {r : St × Client} (h
     by_cases hsh : s.stackHeld = true
     · simp [hsh] at hr
     · rw [if_neg hsh] at hr; simp at hr; subst hr
-      have I : SInv p (emit p .sdret { s with dwait := false, due := s.due - 1 }) := by
+      have I : SInv p (emit p .sdret { bcast s with due := s.due - 1 }) := by
         refine sinv_mon_only (m' := m) h rfl rfl (Nat.le_refl _) rfl rfl rfl rfl rfl ?_
         intro m0 hm0; rw [hm] at hm0; cases hm0
-        exact ⟨by simp [emit, hm, monStep], rfl, rfl, rfl, rfl, rfl, rfl, rfl, R.sdcalls, fun x => Or.inl x, R.openc⟩
-      refine ⟨I, by simp, ?_, by simp [CPc.inSd]⟩
-      simp [openOf, emit, hm, monStep, CPc.inStart]
+        exact ⟨by simp [emit, hm, monStep, bcast], rfl, rfl, rfl, rfl, rfl, rfl, rfl, R.sdcalls, fun x => Or.inl x, R.openc⟩
+      refine ⟨I, by simp [bcast], ?_, by simp [CPc.inSd]⟩
+      simp [openOf, emit, hm, monStep, CPc.inStart, bcast]
   case stTry =>
     have ho : 0 < m.openStarts := by rw [← hopen]; exact hst rfl
     simp only [clientStep] at hr
@@ -1123,6 +1124,18 @@ theorem pres_clientStep {p : Params} {s : St} {c : Client} {r : St × Client} (h
     by_cases hz : s.pending = 0
     · simp [hz] at hr; subst hr; exact fin (pres_fields' h rfl rfl (by simp [hz]) rfl rfl (fun _ x => x)) rfl (by simp [CPc.inSd])
     · simp [hz] at hr
+  case wa n =>
+    simp only [clientStep] at hr
+    split at hr
+    · simp at hr
+    · split at hr
+      · simp at hr; subst hr; exact fin (pres_refl h) rfl (by simp [CPc.inSd])
+      · simp at hr; subst hr; exact fin (pres_fields' h rfl rfl rfl rfl rfl (fun _ x => x)) rfl (by simp [CPc.inSd])
+  case waSleep n =>
+    simp only [clientStep] at hr
+    split at hr
+    · simp at hr; subst hr; exact fin (pres_fields' h rfl rfl rfl rfl rfl (fun _ x => x)) rfl (by simp [CPc.inSd])
+    · simp at hr
 
 def Thr.inStart : Thr → Bool
   | .client c => c.pc.inStart
